@@ -139,7 +139,7 @@ def generate(rng, tier):
     r = rng.random()
     if r < 0.25 and any(b['kind'] != 'mibdump' for b in builds):
         k = rng.choice([j for j, b in enumerate(builds) if b['kind'] != 'mibdump'])
-        scn['faults'] = [{'op': k, 'site': rng.choice(['mkstemp', 'os.write', 'os.close', 'os.rename']), 'nth': 0,
+        scn['faults'] = [{'op': k, 'site': rng.choice(['mkstemp', 'os.write', 'os.close', 'os.rename', 'os.write', 'os.close', 'os.rename', 'file.write', 'file.close']), 'nth': 0,
                           'action': 'errno', 'arg': rng.choice(['EIO', 'ENOSPC', 'EACCES'])}]
         if rng.random() < 0.25:
             scn['faults'][0]['action'] = 'kill'      # not an error return: the process dies there
